@@ -48,6 +48,7 @@ const (
 	routeSingleKey  = 1 // single request, account addressed by (share) public key
 	routeBatch1Name = 2 // batch of one, by name
 	routeBatch2Key  = 3 // batch of two (with an unrelated plain account of the same instance), by public key
+	routeBatch2Last = 4 // batch of two by public key, the duty first and a companion entry that is refused last
 )
 
 // A sequence element: duty (0 = first, 1 = second of the conflicting pair) + 2*route.
@@ -59,7 +60,7 @@ func signDuty(c *rig.Cluster, id uint64, account string, d duty, route int) []by
 	n := c.Nodes[id]
 	creds := &checker.Credentials{Client: rig.DefaultClient, RequestID: "s", IP: "10.0.0.1"}
 	name, key := account, []byte(nil)
-	if route == routeSingleKey || route == routeBatch2Key {
+	if route == routeSingleKey || route == routeBatch2Key || route == routeBatch2Last {
 		_, acc, err := n.Rig.RealFetch.FetchAccount(n.Rig.Ctx, account)
 		if err != nil {
 			return nil
@@ -87,15 +88,25 @@ func signDuty(c *rig.Cluster, id uint64, account string, d duty, route int) []by
 			return sigs[1]
 		}
 		return nil
+	case routeBatch2Last:
+		// The companion has already voted for a later target, so its entry, which comes last, is refused.
+		comp := n.Rig.AddSymAccount("Wallet 1", "", "pass", true)
+		n.Rig.Signer.SignBeaconAttestation(n.Rig.Ctx, creds, "", comp.PubBytes(), AttData(Ent{S: 3, T: 4, Root: 1}))
+		_, sigs := n.Rig.Signer.SignBeaconAttestations(n.Rig.Ctx, creds, []string{"", ""}, [][]byte{key, comp.PubBytes()},
+			[]*rules.SignBeaconAttestationData{data, AttData(Ent{S: 0, T: 1, Root: 1})})
+		if len(sigs) > 0 {
+			return sigs[0]
+		}
+		return nil
 	}
 	_, sig := n.Rig.Signer.SignBeaconAttestation(n.Rig.Ctx, creds, name, key, data)
 	return sig
 }
 
-// c14RoutedSequences: every sequence of length <= 2 over the routed duties (4 routes for attestations, the two
+// c14RoutedSequences: every sequence of length <= 2 over the routed duties (5 routes for attestations, the two
 // single routes for proposals), plus every sequence of length 3 over the plain single-by-name duties.
 func c14RoutedSequences(prop bool) [][]int {
-	routes := []int{routeSingleName, routeSingleKey, routeBatch1Name, routeBatch2Key}
+	routes := []int{routeSingleName, routeSingleKey, routeBatch1Name, routeBatch2Key, routeBatch2Last}
 	if prop {
 		routes = []int{routeSingleName, routeSingleKey}
 	}
@@ -409,7 +420,7 @@ func C14(tier string) int {
 	run.Coverage = map[string]any{
 		"evaluations":          cells + schedExecs,
 		"distinct_nontrivial":  len(outcomes),
-		"rule":                 fmt.Sprintf("for every accepted (n,t) with n <= %d and every conflicting pair (double vote with same and with other source, surround, double proposal): every assignment of request sequences over the two duties to the instances (all 15 sequences of length <= 3 per instance for n <= %d, five representative sequences above), each on a freshly DKG-generated account on real instances; per assignment no instance may release partial signatures for both duties, and real threshold recovery over every t-subset must not succeed for both duties; plus both duties delivered concurrently to one instance under the cooperative scheduler (preemption bound %d); distinct = (n,t,pair,outcome vector) classes", maxN, fullN, bound),
+		"rule":                 fmt.Sprintf("for every accepted (n,t) with n <= %d and every conflicting pair (double vote with same and with other source, surround, double proposal): every assignment of request sequences over the two duties to the instances (all 15 sequences of length <= 3 per instance for n <= %d, five representative sequences above), each on a freshly DKG-generated account on real instances; on a 2-of-2 account one instance additionally receives every sequence of length <= 2 over duty x route (single by name, single by share key, batch of one, batch of two after an approved companion, batch of two before a refused companion); per assignment no instance may release partial signatures for both duties, and real threshold recovery over every t-subset must not succeed for both duties; plus both duties delivered concurrently to one instance under the cooperative scheduler (preemption bound %d); distinct = (n,t,pair,outcome vector) classes", maxN, fullN, bound),
 		"samples":              samples.List(),
 		"exhaustive":           !capped,
 		"assignments":          cells,
